@@ -138,6 +138,49 @@ def run(facts, res):
                           "%s can insert a revision and return without marking the tree non-validated: operations that re-validate only non-validated trees "
                           "(or none at all) keep stale leaves / winner, e.g. a resolution marker that arrives from another replica does not seal its leaf" % b.path, b.loc(t.line))
     res.floor("L1", "insertions into the revision map checked for invalidation", n1b, 1)
+    # L1c: the inserting function records every revision it is given unless that revision is already recorded: a return that
+    # bypasses the insertion is taken only on `present` (contains_key true / an occupied entry). A further refusal (a marker whose
+    # parent has not arrived yet, a revision above some index) makes the recorded set depend on the order of arrival.
+    from ..common import assigns_of_return
+    n1c = 0
+    for (b, bi, t) in muts:
+        if t.callee.name not in ("insert", "entry") or b.kind == "closure":
+            continue
+        if t.callee.name == "entry" and not any(tt.callee is not None and tt.callee.name.startswith("or_insert") for _, tt in b.calls()):
+            ins_blocks = [x for x, tt in b.calls() if tt.callee is not None and "VacantEntry" in (tt.callee.path + (tt.callee.self_ty or "")) and tt.callee.name == "insert"]
+        elif t.callee.name == "entry":
+            ins_blocks = [x for x, tt in b.calls() if tt.callee is not None and tt.callee.name.startswith("or_insert")]
+        else:
+            ins_blocks = [bi]
+        if not ins_blocks or (t.callee.name == "insert" and "VacantEntry" in (t.callee.path + (t.callee.self_ty or "")) and
+                              any(tt.callee is not None and tt.callee.name == "entry" for _, tt in b.calls())):
+            continue
+        n1c += 1
+        bcfg = cfg_of(b)
+        bad = []
+        for rb_, st in assigns_of_return(b):
+            if any(bcfg.dominates(i_, rb_) or i_ == rb_ for i_ in ins_blocks):
+                continue
+            if not bcfg.reaches(0, rb_, avoid=set(ins_blocks)):
+                continue
+            present = False
+            for l in lits_of(b, rb_, facts):
+                if l.kind == "call" and callee_name(l.term) in ("contains_key", "contains") and l.truth is True and "revisions" in field_path(l.term[2][0])[0]:
+                    present = True
+                if l.kind == "variant" and l.variants == {"Occupied"}:
+                    present = True
+                if l.kind == "variant" and l.variants == {"Some"} and callee_name(peel(l.term)) in ("get", "get_key_value") and \
+                        "revisions" in field_path(peel(l.term)[2][0])[0]:
+                    present = True
+            if not present:
+                bad.append(st.line)
+        res.instance("L1", "%s: a return that bypasses the insertion is taken only when the revision is already recorded: %s" % (b.path, not bad), b.loc(t.line))
+        if bad:
+            res.violation("L1", "%s|revision-refused-under-extra-condition" % b.path,
+                          "%s can return without recording a revision that is not yet in the map: whether a revision is kept then depends on what "
+                          "arrived before it (e.g. a resolution marker delivered ahead of the revision it seals is dropped for good)" % b.path,
+                          b.loc(bad[0]))
+    res.floor("L1", "inserting functions checked for completeness", n1c, 1)
 
     # ------------------------------------------------------------------ L2
     v = facts.body("revisiontree::RevisionTree::validate")
@@ -338,6 +381,44 @@ def run(facts, res):
         if not ok:
             res.violation("L4", "%s|listing-not-complete" % name, "%s does not parse every name returned by list_raw_items(DELTA_EXTENSION)" % name, b.loc())
     res.floor("L4", "apply / parse loops", n4, 3)
+    # L4c: every listed block that parses, can be fetched and loads is registered in the block map: inside the listing loop the
+    # insertion is guarded by nothing but those per-item successes (and, for the incremental form, absence from the map). A further
+    # selection (an index horizon, a status, a prefix) makes the set of known blocks depend on something else than the stored items.
+    from ..common import inlined_sites
+    from ..conds import unaccepted
+
+    def _reg_guard_ok(l):
+        if l.kind == "variant":
+            return bool(l.variants) and l.variants <= {"Ok", "Some", "Continue"}
+        if l.kind == "call":
+            n_ = callee_name(l.term)
+            if n_ in ("contains_key", "contains", "is_err", "is_none", "is_empty"):
+                return l.truth is False
+            if n_ in ("is_ok", "is_some"):
+                return l.truth is True
+        return False
+    n4c = 0
+    for name in ("melda::Melda::reload", "melda::Melda::refresh", "melda::Melda::reload_until"):
+        b = facts.body(name)
+        if b is None:
+            continue
+        for s in inlined_sites(facts, b, lambda t: _container_call(t, ("insert",)) and len(t.args) >= 3, depth=2):
+            if _self_field(s.body, s.term) != "deltas" and not any(
+                    x[0] == "field" and x[2] == "deltas" for x in walk(s.args[0] if s.args else ("cut",), False)):
+                continue
+            n4c += 1
+            ls = list(s.lits)
+            if s.body is b:
+                # only what is decided per item: the literals from the loop's own `next() is Some` on
+                idx = [i for i, l in enumerate(ls) if l.kind == "variant" and l.variants == {"Some"} and callee_name(peel(l.term)) == "next"]
+                ls = [l for l in ls[idx[-1]:] if not l.implied] if idx else [l for l in ls if not l.implied]
+            extra = [repr(l) for l in unaccepted(ls, _reg_guard_ok)]
+            res.instance("L4", "%s: a listed block is registered under per-item success / absence only: %s" % (name, not extra), s.loc())
+            if extra:
+                res.violation("L4", "%s|listed-block-skipped-under-extra-condition" % name,
+                              "%s registers a listed block only under the additional condition %s: blocks that are stored, valid and loadable can stay "
+                              "unknown to the replica" % (name, extra[:2]), s.loc())
+    res.floor("L4", "block registrations in the listing loops", n4c, 3)
 
     # ------------------------------------------------------------------ L5
     res.rule("L5", "meld copies every item the peer holds and this replica lacks (no further selection)")
@@ -394,6 +475,142 @@ def run(facts, res):
                     res.violation("L5", "meld|source-not-whole:%s" % ",".join(sorted(names & (SEL | {"filter", "filter_map"}))),
                                   "a meld copy loop iterates a selected part of the peer's items (%s)" % sorted(names & (SEL | {"filter", "filter_map"})), s.loc())
     res.floor("L5", "meld copy sites", n5, 3)
+    # L5c: no successful return of meld bypasses a copy pass (an early `return Ok(..)` taken when the peer's heads are already
+    # known would leave packs or blocks of an interrupted earlier meld uncopied for good)
+    if m is not None:
+        from ..common import inlined_sites, assigns_of_return
+        mcfg = cfg_of(m)
+        hdrs = sorted(mcfg.loop_headers())
+        anchors = {}
+        for s in inlined_sites(facts, m, lambda t: t.callee is not None and t.callee.name == R.name("raw_write"), depth=2):
+            a = s.outer_block
+            outer = [h for h in hdrs if mcfg.dominates(h, a) and mcfg.reaches(a, h)]
+            if outer:
+                a = [h for h in outer if all(mcfg.dominates(h, h2) for h2 in outer)][0] if any(
+                    all(mcfg.dominates(h, h2) for h2 in outer) for h in outer) else outer[0]
+            anchors[a] = s
+        oks = [eb for eb, st in assigns_of_return(m, "Ok")]
+        # a return taken because the peer *is* this replica (`std::ptr::eq(self, other)`) has nothing to copy
+        own = [o for o in oks if any(l.kind == "call" and l.truth is True and l.term[4] is not None and l.term[4].path.endswith("ptr::eq")
+                                     for l in lits_of(m, o, facts))]
+        if own:
+            res.instance("L5", "meld: %d successful return(s) taken only when the peer is this very replica (nothing to copy)" % len(own), m.loc())
+        oks = [o for o in oks if o not in own]
+        bypass = []
+        for a in sorted(anchors):
+            for o in oks:
+                if o != a and mcfg.reaches(0, o, avoid=(a,)):
+                    bypass.append((a, o))
+        res.instance("L5", "meld: every successful return passes through each of the %d copy passes: %s" % (len(anchors), not bypass), m.loc())
+        res.floor("L5", "copy passes of meld (blocks, packs, other items)", len(anchors), 3)
+        res.floor("L5", "successful returns of meld", len(oks), 1)
+        if bypass:
+            a, o = bypass[0]
+            res.violation("L5", "meld|success-bypasses-copy-pass",
+                          "meld can return Ok without running the copy pass at line %s: items the peer holds and this replica lacks stay "
+                          "uncopied although the meld reported success" % m.blocks[a].term.line, m.loc(m.blocks[o].term.line))
+
+    # ------------------------------------------------------------------ L6 memoised view state
+    _check_memos(facts, res)
+
+
+TREE_STATE = ("get_leafs", "get_winner")
+CONTAINERS = ("lru::LruCache", "collections::HashMap", "collections::BTreeMap", "hash::map::HashMap", "btree::map::BTreeMap")
+LOSSLESS = {"clone", "cloned", "to_owned", "to_vec", "collect", "iter", "into_iter", "copied", "as_ref", "borrow", "deref", "into", "from",
+            "unwrap", "expect", "to_string"}
+
+
+def _container_call(t, names):
+    c_ = t.callee
+    return c_ is not None and c_.name in names and any(x in c_.path for x in CONTAINERS)
+
+
+def _self_field(body, t):
+    fp, root = field_path(arg_term(body, t, 0, 24))
+    if not fp or root[0] != "param" or root[1] != 1:
+        return None
+    return fp[0]
+
+
+def _carries_whole(key, block, depth=0):
+    """does `key` contain the result of the call at `block` through value-preserving operations only?"""
+    if depth > 40:
+        return False
+    k = key[0]
+    if k == "call":
+        if key[3] == block:
+            return True
+        nm = callee_name(key)
+        if nm in LOSSLESS and key[2]:
+            return _carries_whole(key[2][0], block, depth + 1)
+        return False
+    if k in ("ref", "deref", "cast"):
+        return _carries_whole(key[1], block, depth + 1)
+    if k == "var":
+        return _carries_whole(key[3], block, depth + 1)
+    if k == "tuple":
+        return any(_carries_whole(x, block, depth + 1) for x in key[1])
+    if k == "agg":
+        return any(_carries_whole(x, block, depth + 1) for x in key[3])
+    if k == "phi":
+        return bool(key[1]) and all(_carries_whole(x, block, depth + 1) for x in key[1])
+    return False
+
+
+def _check_memos(facts, res):
+    """L6: a value that depends on the *current* leaf set or winner of a revision tree may be kept across calls (stored into a
+    container field of the replica and handed back on a later lookup) only under a key that carries that whole leaf set / winner:
+    the leaf set changes whenever a block arrives, so a key that omits it or summarises it (a count, an index) serves a view
+    computed from an earlier set of blocks - a replica that read before the block arrived and one that read after hold the same
+    items and show different documents."""
+    from ..flows import flow_of
+    res.rule("L6", "no read-path memo of a value that depends on a tree's current leaf set / winner unless the key carries that whole state")
+    cleared = set()
+    for ob in facts.repo_bodies():
+        for bi, t in ob.calls():
+            if _container_call(t, ("clear",)):
+                f = _self_field(ob, t)
+                if f:
+                    cleared.add(f)
+    n = n_memo = 0
+    for ob in facts.repo_bodies():
+        if not ob.path.startswith("melda::Melda::") and not ob.path.startswith("datastorage::DataStorage::"):
+            continue
+        ins = [(bi, t) for bi, t in ob.calls() if _container_call(t, ("put", "push", "insert", "get_or_insert")) and len(t.args) >= 3]
+        if not ins:
+            continue
+        fl = flow_of(ob)
+        ret_src = fl.local_sources(0)
+        for bi, t in ins:
+            fld = _self_field(ob, t)
+            if fld is None:
+                continue
+            n += 1
+            # the same function hands a looked-up entry of that field back to its caller (memo shape)
+            looks = [(b2, t2) for b2, t2 in ob.calls() if _container_call(t2, ("get", "peek", "get_mut", "peek_mut", "get_or_insert")) and
+                     _self_field(ob, t2) == fld and t2.dest is not None and ("l", t2.dest.local) in ret_src]
+            vsrc = fl.operand_sources(t.args[-1])
+            state_calls = sorted(b for b in fl.call_blocks(vsrc)
+                                 if ob.blocks[b].term.callee is not None and ob.blocks[b].term.callee.name in TREE_STATE
+                                 and "RevisionTree" in ob.blocks[b].term.callee.path)
+            res.instance("L6", "%s stores into self.%s: returned on a later lookup by the same function: %s; stored value depends on tree state reads: %s" % (
+                ob.path, fld, bool(looks), [ob.blocks[b].term.callee.name for b in state_calls]), ob.loc(t.line))
+            if looks:
+                n_memo += 1
+            if not looks or not state_calls:
+                continue
+            if fld in cleared:
+                res.instance("L6", "self.%s is also cleared somewhere: invalidation design, not decided by this rule" % fld, ob.loc(t.line))
+                continue
+            key = arg_term(ob, t, 1, 24)
+            missing = [ob.blocks[b].term.callee.name for b in state_calls if not _carries_whole(key, b)]
+            if missing:
+                res.violation("L6", "%s|memo-of-tree-state:%s" % (ob.path, fld),
+                              "%s keeps a value computed from the tree's current %s in self.%s and returns it on later lookups, but the key (%s) "
+                              "does not carry that state whole: after a block arrives the old entry is still served, so the view depends on what was "
+                              "read before" % (ob.path, "/".join(sorted(set(missing))), fld, fmt(key, 5)), ob.loc(t.line))
+    res.floor("L6", "stores into container fields of the replica examined", n, 6)
+    res.floor("L6", "memo-shaped stores (the array reconstruction cache)", n_memo, 1)
 
 
 def thorough(res):
@@ -410,6 +627,8 @@ def _copy_guard_ok(l):
             return l.truth is False
         if n in ("is_ok", "is_some"):
             return l.truth is True
+        if n == "eq" and l.truth is False and l.term[4] is not None and l.term[4].path.endswith("ptr::eq"):
+            return True     # the peer is not this very replica (the self-meld early return, C08)
         if n in ("eq", "ne") and l.truth is (n == "eq") and any(
                 x[0] == "call" and callee_name(x) in ("digest_bytes", "digest_string") for x in walk(l.term)):
             return True     # the copy's bytes hash to the item's name (verification of what is copied, C10/C11)
